@@ -89,6 +89,9 @@ theorem varNamesS_g (ok : ActOK act) : ∀ s, varNamesS (gS act s) = varNamesS s
     | none => simp [gS, varNamesS, this]
     | expr e => simp [gS, varNamesS, this]
     | decl k ds => cases k <;> simp [gS, varNamesS, this]
+  | .forOf k _ _ b => by
+    have := varNamesS_g ok b
+    cases k <;> simp [gS, varNamesS, this]
   | .brk _ => by simp [gS]
   | .cont _ => by simp [gS]
   | .ret _ => by simp [gS]
@@ -196,6 +199,7 @@ def mapTask (act : Stmt → List Stmt → Action) : Task → Task
   | .whileLoop c b l V => .whileLoop c (gS act b) l V
   | .doLoop b c l V => .doLoop (gS act b) c l V
   | .forLoop per t u b l V => .forLoop per t u (gS act b) l V
+  | .forOfLoop k x arr i b l V => .forOfLoop k x arr i (gS act b) l V
 
 
 /-- Statement lists, generalised over a continuation list (needed for `switch` case blocks). -/
@@ -286,6 +290,10 @@ theorem stepStmt_g (ok : ActOK act) (P : Prog) (n : Nat) {P' : Prog} (recE : Rec
     have hT : ∀ per V env st, eval P' n (.forLoop per t u (gS act b) l V) env st =
         eval P n (.forLoop per t u b l V) env st := fun per V env st => ih (.forLoop per t u b l V) env st
     simp only [gS, stepStmt, evalFor, hT]
+  | forOf k x e b =>
+    have hT : ∀ arr i V env st, eval P' n (.forOfLoop k x arr i (gS act b) l V) env st =
+        eval P n (.forOfLoop k x arr i b l V) env st := fun arr i V env st => ih (.forOfLoop k x arr i b l V) env st
+    simp only [gS, stepStmt, evalForOf, hT]
   | «try» b hc p cb hf fb =>
     simp only [gS, stepStmt, evalTry, evalCatch, evalFinally, evalBlock_g ok P n hS]
   | labeled l' s => simp only [gS, stepStmt, hS]
@@ -356,6 +364,10 @@ theorem step_g (ok : ActOK act) (P : Prog) (n : Nat)
     simp only [mapTask, step]
     rw [hE]
     simp only [stepFor, forBody, hS, hT]
+  | forOfLoop k x arr i b l V =>
+    have hT : ∀ i V env st, eval (P.mapBodies (gL act)) n (.forOfLoop k x arr i (gS act b) l V) env st =
+        eval P n (.forOfLoop k x arr i b l V) env st := fun i V env st => ih (.forOfLoop k x arr i b l V) env st
+    simp only [mapTask, step, stepForOf, hS, hT]
 
 /-- Lock-step simulation: the rewritten program evaluates every (rewritten) task exactly like the
 original, with the same fuel, on the same state. -/
